@@ -20,7 +20,8 @@ MOD = __name__
 
 RULE_TEXT = (
     "Every case additionally re-targets one DiagramRule object (other file and base first, then the real ones, a bogus base "
-    "in between) and requires the outcomes of a fresh object. Random bases include single-component packages and components "
+    "in between) and requires the outcomes of a fresh object; and applies one configured object to the architecture with the "
+    "complementary import relation first and then to the one under test, again requiring the fresh outcome. Random bases include single-component packages and components "
     "named like the base. Exhaustive part: 2 components + sub-module + bystander (quick) / 3 components + bystander (thorough) under a base "
     "package: every arrow relation x every import relation over those modules x both modes (should-only / should) x "
     "both naming options. Random part: Hypothesis, 2-6 pairwise-unrelated components, bystanders inside and outside the "
@@ -87,7 +88,14 @@ def run_reconfigured(path, ev, should_only, base, decoy_path):
     return first, second, bogus
 
 
-def judge(tree, imports, comps_short, arrows_short, should_only, ev, paths, base=None) -> dict:
+def run_on_two_architectures(path, ev_first, ev, should_only, base):
+    """One configured DiagramRule object applied to another architecture first, then (unchanged) to the one under test."""
+    rule = DiagramRule(should_only_rule=should_only).from_file(Path(path)).with_base_module(base)
+    outcome(lambda: rule.assert_applies(ev_first))
+    return outcome(lambda: rule.assert_applies(ev))
+
+
+def judge(tree, imports, comps_short, arrows_short, should_only, ev, paths, base=None, ev_alt=None) -> dict:
     base = base or BASE
     comps = [f"{base}.{c}" for c in comps_short]
     arrows = {(f"{base}.{a}", f"{base}.{b}") for a, b in arrows_short}
@@ -131,6 +139,11 @@ def judge(tree, imports, comps_short, arrows_short, should_only, ev, paths, base
             if (got[0], got[1] if got[0] != "error" else None) != (results["base"][0], results["base"][1] if results["base"][0] != "error" else None):
                 viols.append({"sig": f"C07/reconfigured-rule-object-differs/{name}", "key": {"mode": mode},
                               "detail": f"a re-targeted DiagramRule object gives {got}, a fresh one {results['base']}"})
+    if not viols and ev_alt is not None:
+        got = run_on_two_architectures(paths[False], ev_alt, ev, should_only, base)
+        if (got[0], got[1] if got[0] != "error" else None) != (results["base"][0], results["base"][1] if results["base"][0] != "error" else None):
+            viols.append({"sig": "C07/rule-object-applied-to-second-architecture-differs", "key": {"mode": mode},
+                          "detail": f"a DiagramRule object that was applied to another architecture before gives {got}, a fresh one {results['base']}"})
     cset = set()
     for c in comps:
         cset |= M.desc_star(tree, c)
@@ -150,8 +163,9 @@ def check_case(spec: dict) -> dict:
     base = spec.get("base", BASE)
     paths = {False: write_puml(render(comps, arrows, False, base)), True: write_puml(render(comps, arrows, True, base)),
              "decoy": write_puml("@startuml\n[zq1] --> [zq2]\n@enduml\n")}
+    alt = sorted(set(M.candidate_edges(tree)) - set(imports))[:40]
     try:
-        return judge(tree, imports, comps, set(arrows), spec["should_only"], ev, paths, base)
+        return judge(tree, imports, comps, set(arrows), spec["should_only"], ev, paths, base, make_evaluable(tree, alt))
     finally:
         for p in paths.values():
             os.unlink(p)
@@ -187,9 +201,10 @@ def exh_shard(arg, stt, deadline) -> None:
                 return
             i += 1
             ev = make_evaluable(tree, imports)
+            ev_alt = make_evaluable(tree, sorted(set(cand) - set(imports)))  # the complementary import relation
             for rel, paths in files:
                 for so in (True, False):
-                    res = judge(tree, imports, comps, rel, so, ev, paths)
+                    res = judge(tree, imports, comps, rel, so, ev, paths, None, ev_alt)
                     spec = {"tree": tree, "imports": imports, "components": comps, "arrows": sorted(rel), "should_only": so}
                     stt.record(spec, res, enumerated=True, sample=(i % 67 == 3 and len(rel) == 1 and so))
     finally:
